@@ -1,9 +1,42 @@
 (** The functions of [Gen/ThlGen.v] -- generated from [src/superrec2/compute/reconciliation.py] by
     [translator/thl_gen.py] -- instantiated at root paths, against the model [Model/Thl.v] of the
-    general DTL solver.  (Header completed at the end of the file.) *)
+    general DTL solver (property C01).
+
+    Instantiation.  Species are root paths ([sp := path], [sp_eqb := path_eqb]); the LCA object is a
+    value of an arbitrary type whose operations are the path operations ([is_ancestor_of := anc],
+    [distance := dist], [species_lca(a, b) := lcp], ..., as in [Proofs/EvalGenProofs.v]) and whose
+    [tree] is [sembed S []]: the species tree [S] of the model with the path of every node as its
+    identifier.  Object nodes carry identifiers of an arbitrary type with a decidable equality
+    ([nid_eqb], [nid_eqb_spec]); the theorems about whole trees assume them pairwise distinct
+    ([NoDup (map TreeNode_id (TreeNode_postorder O))]: distinct Python objects).  The table has the keys
+    [inl node] / [inr species]; [gsem tb n s] is what [table[n][s]] reads as ([Proofs/TableGenProofs.v]);
+    [inv2 rp tb]: a well-formed table with two dictionary dimensions and the policies MIN / [rp].  A tag
+    [(l, r)] of the model is the tag [MappingInfo(Some l, Some r)] of the code ([tag_mi], [emap]).
+
+    Two layers.  (1) EXACT: the generated code equals the model run with the ENUMERATION ORDERS OF THE CODE
+    -- [spe_batch_o] / [dt_batch_o] (the aggregators fed in level order), [tcell] (the species of a row
+    in post-order), [decode_g] (tags in the order [infos_order], a parameter), [thl_candidates_o] (root
+    species in level order) -- for every retention policy: [gen_speciation_eq],
+    [gen_duplication_transfer_eq] (one step: the cell afterwards is [cell_upd] of the batch, every other
+    cell reads the same), [gen_compute_thl_table_eq] (every cell of the table), [gen_decode_eq],
+    [gen_reconcile_thl_eq], [gen_reconcile_lca_eq].  (2) ORDERS: [Model/Thl.v] enumerates the species in
+    pre-order everywhere.  [esim] / [csim]: entries / candidate lists up to the order of the candidates.
+    [spe_step_model], [dt_step_model]: the batches of one step have the same candidate values and, under
+    ALL, the same candidates as sets; [tcell_model]: every cell of the table has the same VALUE as the cell
+    of [thl_table] (any policy) and under ALL the same tags up to a permutation ([tcell_model_tags]: the
+    model keeps the tag set as a list in pre-order encounter order, the code in level-order / post-order
+    encounter order); [decode_model], [gen_reconcile_thl_model]: under ALL the reconciliations returned
+    are a permutation of [tags (reconcile_thl S c RALL O)].  Under ANY the kept tag depends on the order:
+    layer (1) is the statement (the harness compares ANY results by membership; [Properties/C01.v]
+    [C01_thl_any_order] covers the order of the root species).  Layer (2) assumes [nn (c_hgt c)] (the
+    transfer cost is not -inf), as the model's own theorems do.
+
+    No generated function can fail on these inputs: every theorem has the form [gen_f .. = Ok ..]; in
+    particular [NoneValue] (a tag with a missing species), [ValueError] (unpacking the children of a
+    leaf), [KeyError] / [TypeError] / [AttributeError] (the nested dictionaries) do not arise. *)
 From Coq Require Import List Bool ZArith NArith Lia Permutation.
 From SR Require Import Base.PathB Base.Ext Model.Entry Model.Recon Model.Thl
-  Proofs.PathFacts Proofs.EntryProofs Proofs.ReconProofs Proofs.ThlProofs Proofs.EntryGenProofs Proofs.EvalGenProofs
+  Proofs.PathFacts Proofs.EntryProofs Proofs.ReconProofs Proofs.ExhProofs Proofs.ThlProofs Proofs.EntryGenProofs Proofs.EvalGenProofs
   Proofs.TableGenProofs.
 From SR Require Gen.EntryGen Gen.TableGen Gen.EvalGen Gen.ThlGen.
 Import ListNotations.
@@ -44,6 +77,10 @@ Section Emap.
   Lemma emap_default mp : emap (default_entry mp) = default_entry mp.
   Proof. reflexivity. Qed.
 End Emap.
+
+Lemma map_flat_map' {X Y Z} (f : Y -> Z) (g : X -> list Y) (l : list X) :
+  map f (flat_map g l) = flat_map (fun x => map f (g x)) l.
+Proof. induction l as [|x l IH]; cbn; [reflexivity|]. now rewrite map_app, IH. Qed.
 
 (* ------------------------------------------------------------------ *)
 (** * Conversions: tags, keys, trees *)
@@ -735,6 +772,187 @@ Section Table2.
     unfold rin at 2. cbn [EV.rin_object_tree]. rewrite app_nil_r in E. rewrite E. cbn [T.gen_compute_thl_table_for1].
     exists tb. split; [reflexivity|]. split; [exact I|]. split; [exact S|]. intros n s Hn. now rewrite F.
   Qed.
+
+  (* ------------------------------------------------------------------ *)
+  (** * [_decode_thl_table] *)
+  Notation dict := (list (node_id * path)).
+  Notation tout := (T.tout_state path lca node_id).
+  Variable ord : list mi -> list mi.
+  Hypothesis ord_incl : forall l m, In m (ord l) -> In m l.
+
+  (** the dictionaries the generator yields, for the table read as [G]: a leaf yields its own assignment when its cell is
+      finite; an internal node, for every tag of its cell (in the order [ord] of the set) every pair of dictionaries of the
+      two subtrees, merged after its own assignment (the list of the stores, newest first) *)
+  Fixpoint decode_g (G : node_id -> path -> entry mi) (t : tree) (s : path) : list dict :=
+    match t with
+    | EV.TreeNode_leaf i => if ext_is_inf (val (G i s)) then [] else [[(i, s)]]
+    | EV.TreeNode_node i a b =>
+        flat_map (fun m => match T.MappingInfo_left m, T.MappingInfo_right m with
+                           | Some l, Some r =>
+                               flat_map (fun dl => map (fun dr => dr ++ dl ++ [(i, s)]) (decode_g G b r)) (decode_g G a l)
+                           | _, _ => []
+                           end) (ord (tags (G i s)))
+    end.
+
+  Lemma decode_g_ext G G' t : (forall n x, G n x = G' n x) -> forall s, decode_g G t s = decode_g G' t s.
+  Proof.
+    intros E. induction t as [i|i a IHa b IHb]; intros s; cbn [decode_g]; rewrite E; [reflexivity|].
+    apply flat_map_ext. intros m. destruct (T.MappingInfo_left m), (T.MappingInfo_right m); try reflexivity.
+    rewrite IHa. apply flat_map_ext. intros dl. now rewrite IHb.
+  Qed.
+
+  Lemma decode_for2 root s (l : list (tout * tout)) : forall acc,
+    T.gen_decode_thl_table_for2 (lca := lca) root s rin l acc =
+      T.Next (acc ++ map (fun p => T.mk_tout rin (T.tout_object_species (snd p) ++ T.tout_object_species (fst p)
+                                                   ++ [(EV.TreeNode_id root, s)])) l).
+  Proof.
+    induction l as [|[ml mr] l IH]; intros acc; cbn [T.gen_decode_thl_table_for2 map]; [now rewrite app_nil_r|].
+    rewrite IH, <- app_assoc. reflexivity.
+  Qed.
+
+  Lemma map_list_prod {X Y Z} (g : X -> Y) (f : Y * Y -> Z) (A B : list X) :
+    map f (list_prod (map g A) (map g B)) = flat_map (fun a => map (fun b => f (g a, g b)) B) A.
+  Proof.
+    induction A as [|a A IH]; cbn [map list_prod flat_map]; [reflexivity|].
+    rewrite map_app, IH, !map_map. reflexivity.
+  Qed.
+
+
+  Definition tags_ok (tb : tstate) (t : tree) : Prop :=
+    forall u, In u (T.TreeNode_postorder t) -> forall x m, In m (tags (gsem tb (EV.TreeNode_id u) x)) -> exists lr, m = tag_mi lr.
+
+  Lemma tags_ok_same tb tb' t : tsame keqb tb tb' -> tags_ok tb t -> tags_ok tb' t.
+  Proof. intros S H u Hu x m Hm. rewrite (gsem_same tb tb' _ _ S) in Hm. eauto. Qed.
+
+  Theorem gen_decode_eq (t : tree) : forall s tb, inv2 rp tb -> tags_ok tb t ->
+    exists tb', T.gen_decode_thl_table path_eqb nid_eqb ord t s rin tb = T.Ok (tb', map (T.mk_tout rin) (decode_g (gsem tb) t s))
+                /\ tsame keqb tb tb'.
+  Proof.
+    induction t as [i|i a IHa b IHb]; intros s tb I Ht.
+    - cbn [T.gen_decode_thl_table EV.TreeNode_is_leaf EV.TreeNode_id]. cbv zeta.
+      rewrite (rd_getitem rp tb _ I), (rd_sub rp tb _ _ I), (rd_is_infinite rp tb _ _ I), parent_entry.
+      exists (rd tb (inl i) (inr s)). split; [|now apply (rd_same rp)].
+      cbn [decode_g]. fold (ck i s). fold (gsem tb i s). destruct (ext_is_inf (val (gsem tb i s))); reflexivity.
+    - cbn [T.gen_decode_thl_table EV.TreeNode_is_leaf EV.TreeNode_id]. cbv zeta.
+      rewrite (rd_getitem rp tb _ I), (rd_sub rp tb _ _ I), (rd_infos rp tb _ _ I), parent_entry.
+      pose proof (rd_same rp tb (inl i) (inr s) I) as S0. set (tb0 := rd tb (inl i) (inr s)) in *. clearbody tb0.
+      fold (ck i s). fold (gsem tb i s).
+      match goal with |- context [match ?f ?l ?t ?a with T.Next _ => _ | T.Ret _ => _ | T.Fail _ => _ end] => set (F := f) end.
+      assert (Hta : tags_ok tb a).
+      { intros u Hu. apply Ht. cbn [T.TreeNode_postorder]. rewrite !in_app_iff. now left. }
+      assert (Htb : tags_ok tb b).
+      { intros u Hu. apply Ht. cbn [T.TreeNode_postorder]. rewrite !in_app_iff. right. now left. }
+      assert (HF : forall l, (forall m, In m l -> exists lr, m = tag_mi lr) -> forall tbx acc, tsame keqb tb tbx ->
+                exists tb', F l tbx acc = T.Next (tb', acc ++ map (T.mk_tout rin)
+                     (flat_map (fun m => match T.MappingInfo_left m, T.MappingInfo_right m with
+                                         | Some l, Some r =>
+                                             flat_map (fun dl => map (fun dr => dr ++ dl ++ [(i, s)]) (decode_g (gsem tb) b r))
+                                                      (decode_g (gsem tb) a l)
+                                         | _, _ => []
+                                         end) l)) /\ tsame keqb tb tb').
+      { induction l as [|m l IHl]; intros Hl tbx acc Sx.
+        - exists tbx. split; [cbn; now rewrite app_nil_r|exact Sx].
+        - destruct (Hl m (or_introl eq_refl)) as [[l0 r0] ->].
+          unfold F. cbn [tag_mi T.MappingInfo_left T.MappingInfo_right fst snd flat_map]. fold F.
+          pose proof (inv2_same _ _ _ I Sx) as Ix.
+          destruct (IHa l0 tbx Ix (tags_ok_same _ _ _ Sx Hta)) as [tb1 [E1 S1]]. rewrite E1.
+          pose proof (tsame_trans keqb _ _ _ Sx S1) as Sx1. pose proof (inv2_same _ _ _ I Sx1) as I1.
+          destruct (IHb r0 tb1 I1 (tags_ok_same _ _ _ Sx1 Htb)) as [tb2 [E2 S2]]. rewrite E2.
+          pose proof (tsame_trans keqb _ _ _ Sx1 S2) as Sx2.
+          rewrite decode_for2.
+          destruct (IHl (fun m' Hm' => Hl m' (or_intror Hm')) tb2
+                      (acc ++ map (fun p => T.mk_tout rin (T.tout_object_species (snd p) ++ T.tout_object_species (fst p)
+                                                           ++ [(EV.TreeNode_id (EV.TreeNode_node i a b), s)]))
+                                  (list_prod (map (T.mk_tout rin) (decode_g (gsem tbx) a l0))
+                                             (map (T.mk_tout rin) (decode_g (gsem tb1) b r0)))) Sx2) as [tb' [E' S']].
+          exists tb'. split; [|exact S']. rewrite E'. f_equal. f_equal. rewrite <- app_assoc. f_equal.
+          rewrite map_app. f_equal.
+          rewrite (map_list_prod (T.mk_tout rin)). cbn [T.tout_object_species fst snd EV.TreeNode_id].
+          rewrite (decode_g_ext (gsem tbx) (gsem tb) a (fun n x => gsem_same tb tbx n x Sx)).
+          rewrite (decode_g_ext (gsem tb1) (gsem tb) b (fun n x => gsem_same tb tb1 n x Sx1)).
+          rewrite map_flat_map'. apply flat_map_ext. intros dl. now rewrite map_map. }
+      destruct (HF (ord (tags (gsem tb i s)))
+                  (fun m Hm => Ht _ (root_in_postorder (EV.TreeNode_node i a b)) s m (ord_incl _ _ Hm)) tb0 [] S0) as [tb' [E' S']].
+      rewrite E'. exists tb'. split; [reflexivity|exact S'].
+  Qed.
+
+  (* ------------------------------------------------------------------ *)
+  (** * [reconcile_thl] *)
+  Variables (oeqb : tout -> tout -> bool) (missing : node_id -> path) (syn : node_id -> list fam).
+  Notation SANC := (fun (_ : lca) => sanc).
+  Notation COMP := (fun (_ : lca) => comparable).
+  Notation LCP := (fun (_ : lca) => lcp).
+  Notation OCOST := (T.gen_output_cost path_eqb nid_eqb ANC SANC COMP LCP DIST missing).
+
+  (** the reconciliation a dictionary denotes (a key that is absent reads as [missing]) and its cost: the evaluator model *)
+  Definition rt_of (d : dict) : rtree := rtree_of (T.dict_fun nid_eqb missing d) O.
+  Definition cost_of (d : dict) : ext := cost c (otree_of leafsp syn O) (rt_of d).
+
+  Lemma output_cost_eq d : OCOST (T.mk_tout rin d) = T.Ok (T.mk_tout rin d, cost_of d).
+  Proof.
+    unfold T.gen_output_cost. cbn [T.tout_input T.tout_object_species].
+    change (EV.gen_cost path_eqb ANC SANC COMP LCP DIST ?o) with (cost_p (lca := lca) o).
+    rewrite (gen_cost_eq _ syn). unfold rin, cost_of, rt_of.
+    cbn [T.eval_res EV.rout_input EV.rout_object_species EV.rin_costs EV.rin_leaf_object_species EV.rin_object_tree].
+    now rewrite ccosts_stsocc.
+  Qed.
+
+  Definition cand_out (d : dict) : EG.Candidate tout := EG.mk_Candidate (cost_of d) (Some (T.mk_tout rin d)).
+
+  Lemma map_costs (ds : list dict) :
+    (fix map'2 (it' : list tout) {struct it'} : T.res (list (EG.Candidate tout)) :=
+       match it' with
+       | [] => T.Ok []
+       | output :: it'' =>
+           match OCOST output with
+           | T.Err e' => T.Err e'
+           | T.Ok (_, t'4) => match map'2 it'' with T.Err e' => T.Err e' | T.Ok r' => T.Ok (EG.mk_Candidate t'4 (Some output) :: r') end
+           end
+       end) (map (T.mk_tout rin) ds) = T.Ok (map cand_out ds).
+  Proof. induction ds as [|d ds IH]; cbn [map]; [reflexivity|]. now rewrite output_cost_eq, IH. Qed.
+
+  Definition res_state (e : entry tout) : EG.entry_state tout := mk EG.MergePolicy_MIN (prc rp) e.
+
+  Lemma reconcile_loop xs : forall tb e, inv2 rp tb -> tags_ok tb O ->
+    exists tb', T.gen_reconcile_thl_for1 path_eqb nid_eqb ANC SANC COMP LCP DIST oeqb missing ord rin O xs tb (res_state e) =
+                  T.Next (tb', res_state (update oeqb MIN rp e
+                                 (flat_map (fun x => map (fun d => ccand (cand_out d)) (decode_g (gsem tb) O (T.STree_id x))) xs)))
+                /\ tsame keqb tb tb'.
+  Proof.
+    induction xs as [|x xs IH]; intros tb e I Ht.
+    - exists tb. split; [reflexivity|apply tsame_refl; apply I].
+    - cbn [T.gen_reconcile_thl_for1].
+      destruct (gen_decode_eq O (T.STree_id x) tb I Ht) as [tb1 [E1 S1]]. rewrite E1.
+      rewrite map_costs. unfold res_state at 1. rewrite gen_entry_update_mk. cbn [T.entry_res cmp]. rewrite crp_prc.
+      pose proof (inv2_same _ _ _ I S1) as I1.
+      destruct (IH tb1 (update oeqb MIN rp e (map ccand (map cand_out (decode_g (gsem tb) O (T.STree_id x))))) I1
+                  (tags_ok_same _ _ _ S1 Ht)) as [tb' [E' S']].
+      fold (res_state (update oeqb MIN rp e (map ccand (map cand_out (decode_g (gsem tb) O (T.STree_id x)))))).
+      rewrite E'. exists tb'. split; [|eapply tsame_trans; eauto].
+      f_equal. f_equal. f_equal. cbn [flat_map]. rewrite <- (update_app oeqb), map_map. f_equal.
+      apply flat_map_ext. intros y. now rewrite (decode_g_ext (gsem tb1) (gsem tb) O (fun n z => gsem_same tb tb1 n z S1)).
+  Qed.
+
+  (** the candidates the result entry receives: for every species (level order), every dictionary decoded from the root *)
+  Definition thl_candidates_o (G : node_id -> path -> entry mi) : list (ext * option tout) :=
+    flat_map (fun x => map (fun d => ccand (cand_out d)) (decode_g G O (T.STree_id x))) (T.STree_levelorder ST).
+
+  Theorem gen_reconcile_thl_eq : NoDup (oids (T.TreeNode_postorder O)) ->
+    exists tb, T.gen_compute_thl_table path_eqb nid_eqb ANC DIST (fun _ => ST) rin (prc rp) = T.Ok tb /\
+      (forall u, In u (T.TreeNode_postorder O) -> forall s, gsem tb (EV.TreeNode_id u) s = emap tag_mi (tcell c rp ST leafsp u s)) /\
+      T.gen_reconcile_thl path_eqb nid_eqb ANC SANC COMP LCP DIST (fun _ => ST) oeqb missing ord rin (prc rp) =
+        T.Ok (tags (update oeqb MIN rp (default_entry MIN) (thl_candidates_o (gsem tb)))).
+  Proof.
+    intros ND. destruct (gen_compute_thl_table_eq ND) as [tb [E [I [Sk So]]]]. exists tb. split; [exact E|]. split; [exact Sk|].
+    unfold T.gen_reconcile_thl. rewrite E. cbv zeta. rewrite gen_entry_default_eq. cbn [T.entry_res].
+    assert (Ht : tags_ok tb O).
+    { intros u Hu x m Hm. rewrite (Sk u Hu x) in Hm. cbn [emap tags] in Hm. apply in_map_iff in Hm as [lr [<- _]]. eauto. }
+    change (EV.rin_object_tree rin) with O. change (EV.rin_species_lca rin) with lcaobj. cbv beta.
+    destruct (reconcile_loop (T.STree_levelorder ST) tb (default_entry MIN) I Ht) as [tb' [E' _]].
+    unfold res_state in E' at 1. cbn [cmp]. rewrite E'. unfold res_state. rewrite gen_entry_infos_eq. cbn [T.entry_res].
+    now rewrite ent_mk.
+  Qed.
+
 End Table2.
 
 
@@ -1131,3 +1349,388 @@ Proof.
       apply tread_node_some in L as [_ [-> _]]. rewrite cell_two_batches, e2_applied.
       apply (entry_tags_all_nodup tag_eqb tag_eqb_spec).
 Qed.
+
+(* ------------------------------------------------------------------ *)
+(** * Decoding and the result: the code and the model, under ALL *)
+Section ReconcileModel.
+  Context {lca node_id : Type} (nid_eqb : node_id -> node_id -> bool).
+  Hypothesis nid_eqb_spec : forall a b, reflect (a = b) (nid_eqb a b).
+  Notation tree := (EV.TreeNode node_id).
+  Notation mi := (T.MappingInfo path).
+  Notation dict := (list (node_id * path)).
+  Notation oids l := (map (@EV.TreeNode_id node_id) l).
+  Variables (S : stree) (c : costs) (leafsp : node_id -> path) (syn : node_id -> list fam) (missing : node_id -> path).
+  Variable ord : list mi -> list mi.
+  Hypothesis Hh : nn (c_hgt c).
+  Hypothesis ord_same : forall l, sameset (ord l) l.
+  Notation ST := (sembed S []).
+  Notation OT := (otree_of leafsp syn).
+  Notation dfun := (T.dict_fun nid_eqb missing).
+
+  (** ** dictionaries kept as the list of their stores *)
+  Lemma dict_get_app (d1 d2 : dict) k :
+    T.dict_get nid_eqb (d1 ++ d2) k = match T.dict_get nid_eqb d1 k with Some v => Some v | None => T.dict_get nid_eqb d2 k end.
+  Proof. induction d1 as [|[k' v] d1 IH]; cbn; [reflexivity|]. destruct (nid_eqb k k'); auto. Qed.
+  Lemma dict_get_none (d : dict) k : ~ In k (map fst d) -> T.dict_get nid_eqb d k = None.
+  Proof.
+    induction d as [|[k' v] d IH]; cbn; [reflexivity|]. intros H. destruct (nid_eqb_spec k k') as [->|N]; [exfalso; apply H; now left|].
+    apply IH. intros Hk. apply H. now right.
+  Qed.
+  Lemma rtree_of_ext f g (t : tree) : (forall n, In n (oids (T.TreeNode_postorder t)) -> f n = g n) -> rtree_of f t = rtree_of g t.
+  Proof.
+    induction t as [i|i a IHa b IHb]; intros E; cbn [rtree_of T.TreeNode_postorder] in *.
+    - f_equal. apply E. now left.
+    - rewrite !map_app in E. cbn [map EV.TreeNode_id] in E. f_equal.
+      + apply E. rewrite !in_app_iff. right; right. now left.
+      + apply IHa. intros n Hn. apply E. rewrite !in_app_iff. now left.
+      + apply IHb. intros n Hn. apply E. rewrite !in_app_iff. right. now left.
+  Qed.
+
+  (** the keys of a decoded dictionary: the nodes of the subtree *)
+  Lemma decode_keys G (t : tree) : forall s d, In d (decode_g ord G t s) -> sameset (map fst d) (oids (T.TreeNode_postorder t)).
+  Proof.
+    induction t as [i|i a IHa b IHb]; intros s d H; cbn [decode_g T.TreeNode_postorder] in *.
+    - destruct (ext_is_inf (val (G i s))); [destruct H|]. destruct H as [<-|[]]. intros x. cbn. tauto.
+    - apply in_flat_map in H as [m [_ H]]. destruct (T.MappingInfo_left m) as [l|]; [|destruct H].
+      destruct (T.MappingInfo_right m) as [r|]; [|destruct H].
+      apply in_flat_map in H as [dl [Hl H]]. apply in_map_iff in H as [dr [<- Hr]].
+      intros x. rewrite !map_app, !in_app_iff, (IHa l dl Hl x), (IHb r dr Hr x). cbn. tauto.
+  Qed.
+
+  (** ** the reconciliations decoded *)
+  Variable O : tree.
+  Hypothesis ids_distinct : NoDup (oids (T.TreeNode_postorder O)).
+  Variable G : node_id -> path -> entry mi.
+  Hypothesis G_table : forall u, In u (T.TreeNode_postorder O) -> forall x, G (EV.TreeNode_id u) x = emap tag_mi (tcell c RALL ST leafsp u x).
+
+  Lemma flat_map_sameset {X Y} (f g : X -> list Y) l l' : sameset l l' -> (forall x, In x l -> sameset (f x) (g x)) ->
+    sameset (flat_map f l) (flat_map g l').
+  Proof.
+    intros Sl Sf y. rewrite !in_flat_map. split; intros [x [Hx Hy]].
+    - exists x. split; [now apply Sl|now apply (Sf x Hx)].
+    - apply Sl in Hx. exists x. split; [exact Hx|now apply (Sf x Hx)].
+  Qed.
+
+  Lemma subtree_distinct (t a b : tree) i : In (EV.TreeNode_node i a b) (T.TreeNode_postorder t) -> NoDup (oids (T.TreeNode_postorder t)) ->
+    NoDup (oids (T.TreeNode_postorder (EV.TreeNode_node i a b))).
+  Proof.
+    induction t as [j|j ta IHa tb IHb]; cbn [T.TreeNode_postorder]; intros H ND.
+    - destruct H as [H|[]]. discriminate.
+    - rewrite !in_app_iff in H. rewrite !map_app in ND. destruct H as [H|[H|[H|[]]]].
+      + apply IHa; [exact H|]. eapply NoDup_app_l; eauto.
+      + apply IHb; [exact H|]. eapply NoDup_app_l. eapply NoDup_app_r; eauto.
+      + inversion H; subst. cbn [T.TreeNode_postorder]. now rewrite !map_app.
+  Qed.
+  Lemma subtree_in (t u v : tree) : In u (T.TreeNode_postorder t) -> In v (T.TreeNode_postorder u) -> In v (T.TreeNode_postorder t).
+  Proof.
+    induction t as [j|j ta IHa tb IHb]; cbn [T.TreeNode_postorder]; intros H1 H2.
+    - destruct H1 as [<-|[]]. exact H2.
+    - rewrite !in_app_iff in *. destruct H1 as [H1|[H1|[<-|[]]]]; [left; eauto|right; left; eauto|].
+      cbn [T.TreeNode_postorder] in H2. rewrite !in_app_iff in H2. exact H2.
+  Qed.
+
+  Lemma rtree_merge i (a b : tree) s (dl dr : dict) :
+    NoDup (oids (T.TreeNode_postorder a) ++ oids (T.TreeNode_postorder b) ++ [i]) ->
+    sameset (map fst dl) (oids (T.TreeNode_postorder a)) -> sameset (map fst dr) (oids (T.TreeNode_postorder b)) ->
+    rtree_of (dfun (dr ++ dl ++ [(i, s)])) (EV.TreeNode_node i a b) = RNode s (rtree_of (dfun dl) a) (rtree_of (dfun dr) b).
+  Proof.
+    intros ND Kl Kr. cbn [rtree_of]. f_equal.
+    - unfold T.dict_fun. rewrite !dict_get_app.
+      rewrite (dict_get_none dr i), (dict_get_none dl i).
+      + cbn. destruct (nid_eqb_spec i i); congruence.
+      + intros H. apply Kl in H. eapply (NoDup_app_disj _ _ i ND H). rewrite in_app_iff. right. now left.
+      + intros H. apply Kr in H. eapply (NoDup_app_disj _ _ i (NoDup_app_r _ _ ND) H). now left.
+    - apply rtree_of_ext. intros n Hn. unfold T.dict_fun. rewrite !dict_get_app.
+      rewrite (dict_get_none dr n).
+      + destruct (T.dict_get nid_eqb dl n) eqn:E; [reflexivity|]. exfalso.
+        apply Kl in Hn. clear - Hn E nid_eqb_spec. induction dl as [|[k v] dl IH]; cbn in *; [destruct Hn|].
+        destruct (nid_eqb_spec n k) as [->|N]; [discriminate|]. destruct Hn as [->|Hn]; [congruence|auto].
+      + intros H. apply Kr in H. eapply (NoDup_app_disj _ _ n ND Hn). rewrite in_app_iff. now left.
+    - apply rtree_of_ext. intros n Hn. unfold T.dict_fun. rewrite !dict_get_app.
+      destruct (T.dict_get nid_eqb dr n) eqn:E; [reflexivity|]. exfalso.
+      apply Kr in Hn. clear - Hn E nid_eqb_spec. induction dr as [|[k v] dr IH]; cbn in *; [destruct Hn|].
+      destruct (nid_eqb_spec n k) as [->|N]; [discriminate|]. destruct Hn as [->|Hn]; [congruence|auto].
+  Qed.
+
+  Lemma decode_model (t : tree) : In t (T.TreeNode_postorder O) -> forall s, In s (snodes S) ->
+    sameset (map (fun d => rtree_of (dfun d) t) (decode_g ord G t s)) (decode (thl_table S c RALL (OT t)) s).
+  Proof.
+    induction t as [i|i a IHa b IHb]; intros Ht s Hs.
+    - pose proof (G_table _ Ht s) as Gt. cbn [EV.TreeNode_id] in Gt.
+      cbn [decode_g otree_of thl_table decode]. rewrite Gt. cbn [emap val tcell tread].
+      destruct (ext_is_inf _); cbn [map rtree_of]; [intros x; tauto|].
+      unfold T.dict_fun. cbn [T.dict_get]. destruct (nid_eqb_spec i i); [|congruence]. intros x; tauto.
+    - pose proof (subtree_distinct O a b i Ht ids_distinct) as ND. cbn [T.TreeNode_postorder] in ND.
+      rewrite !map_app in ND. cbn [map EV.TreeNode_id] in ND.
+      assert (Ha : In a (T.TreeNode_postorder O)).
+      { eapply subtree_in; [exact Ht|]. cbn [T.TreeNode_postorder]. rewrite !in_app_iff. left. apply root_in_postorder. }
+      assert (Hb : In b (T.TreeNode_postorder O)).
+      { eapply subtree_in; [exact Ht|]. cbn [T.TreeNode_postorder]. rewrite !in_app_iff. right; left. apply root_in_postorder. }
+      pose proof (G_table _ Ht s) as Gt. cbn [EV.TreeNode_id] in Gt.
+      cbn [decode_g otree_of thl_table decode]. rewrite Gt. cbn [emap tags].
+      set (ta := thl_table S c RALL (OT a)). set (tb := thl_table S c RALL (OT b)).
+      assert (NA : forall x, nn (val (tread ta x))) by (intros; apply table_nn; auto).
+      assert (NB : forall x, nn (val (tread tb x))) by (intros; apply table_nn; auto).
+      rewrite map_flat_map'.
+      (* the tags of the cell, in the code and in the model *)
+      destruct (tcell_model S c RALL leafsp syn Hh (EV.TreeNode_node i a b) s Hs) as [_ [_ Ss]]. specialize (Ss eq_refl).
+      cbn [otree_of thl_table] in Ss. fold ta tb in Ss.
+      assert (Sound : forall l0 r0, In (l0, r0) (tags (tread (TNode (node_row S c RALL ta tb) ta tb) s)) ->
+                 In l0 (snodes S) /\ In r0 (snodes S)).
+      { intros l0 r0 H. apply (tread_node_tags S c RALL ta tb Hh NA NB s) in H as [_ Hc].
+        apply (cell_tag_sound S c RALL ta tb s Hh NA NB) in Hc as [Il [Ir _]]. auto. }
+      intros r. rewrite !in_flat_map. split.
+      + intros [m [Hm Hr]]. apply ord_same, in_map_iff in Hm as [[l0 r0] [<- Hlr]].
+        cbn [tag_mi T.MappingInfo_left T.MappingInfo_right fst snd] in Hr.
+        apply Ss in Hlr. exists (l0, r0). split; [exact Hlr|]. destruct (Sound _ _ Hlr) as [Il Ir].
+        rewrite map_flat_map' in Hr. apply in_flat_map in Hr as [dl [Hdl Hr]]. rewrite map_map in Hr.
+        apply in_map_iff in Hr as [dr [<- Hdr]]. cbn [fst snd].
+        apply in_flat_map. exists (rtree_of (dfun dl) a).
+        split; [apply (IHa Ha l0 Il); apply (in_map (fun d => rtree_of (dfun d) a)); exact Hdl|].
+        apply in_map_iff. exists (rtree_of (dfun dr) b).
+        split; [|apply (IHb Hb r0 Ir); apply (in_map (fun d => rtree_of (dfun d) b)); exact Hdr].
+        symmetry. apply rtree_merge; [exact ND|eapply decode_keys; eauto|eapply decode_keys; eauto].
+      + intros [[l0 r0] [Hlr Hr]]. destruct (Sound _ _ Hlr) as [Il Ir]. cbn [fst snd] in Hr.
+        apply in_flat_map in Hr as [ra [Hra Hr]]. apply in_map_iff in Hr as [rb [<- Hrb]].
+        apply (IHa Ha l0 Il), in_map_iff in Hra as [dl [<- Hdl]]. apply (IHb Hb r0 Ir), in_map_iff in Hrb as [dr [<- Hdr]].
+        exists (tag_mi (l0, r0)). split; [apply ord_same, in_map; now apply Ss|].
+        cbn [tag_mi T.MappingInfo_left T.MappingInfo_right fst snd].
+        rewrite map_flat_map'. apply in_flat_map. exists dl. split; [exact Hdl|]. rewrite map_map. apply in_map_iff. exists dr.
+        split; [|exact Hdr]. apply rtree_merge; [exact ND|eapply decode_keys; eauto|eapply decode_keys; eauto].
+  Qed.
+
+  (** ** the result entry *)
+  Variables (lcaobj : lca) (oeqb : T.tout_state path lca node_id -> T.tout_state path lca node_id -> bool).
+  Notation tout := (T.tout_state path lca node_id).
+  Definition rt_out (o : tout) : rtree := rtree_of (dfun (T.tout_object_species o)) O.
+  (** [==] on two outputs (the dataclass compares the input and the dictionaries) decides whether they denote the same
+      reconciliation *)
+  Hypothesis oeqb_rt : forall a b, rtree_eqb (rt_out a) (rt_out b) = oeqb a b.
+
+  Notation rin := (EV.mk_rin O lcaobj leafsp (stsocc c)).
+  Notation cands_o := (thl_candidates_o nid_eqb lcaobj c ST leafsp O ord missing syn G).
+
+  Lemma In_cands_o v o : In (v, o) (map (cmap rt_out) cands_o) <->
+    exists s d, In s (snodes S) /\ In d (decode_g ord G O s) /\ v = cost c (OT O) (rtree_of (dfun d) O) /\ o = Some (rtree_of (dfun d) O).
+  Proof.
+    unfold thl_candidates_o. rewrite in_map_iff. split.
+    - intros [[w ot] [E I]]. apply in_flat_map in I as [x [Hx I]]. apply in_map_iff in I as [d [Ed Hd]].
+      unfold cand_out, ccand, cost_of, rt_of in Ed. cbn [EG.Candidate_value EG.Candidate_info] in Ed. inversion Ed; subst. clear Ed.
+      unfold cmap in E. cbn [fst snd option_map] in E. inversion E; subst. clear E.
+      exists (T.STree_id x), d. split; [|auto].
+      apply sameset_snodes. unfold sids, ids. now apply in_map.
+    - intros [s [d [Hs [Hd [-> ->]]]]]. apply sameset_snodes in Hs. unfold sids, ids in Hs. apply in_map_iff in Hs as [x [<- Hx]].
+      exists (ccand (cand_out nid_eqb lcaobj c leafsp O missing syn d)). split; [reflexivity|].
+      apply in_flat_map. exists x. split; [exact Hx|].
+      apply (in_map (fun d => ccand (cand_out nid_eqb lcaobj c leafsp O missing syn d))). exact Hd.
+  Qed.
+
+  Lemma In_cands_model v o : In (v, o) (thl_candidates S c RALL (OT O)) <->
+    exists s r, In s (snodes S) /\ In r (decode (thl_table S c RALL (OT O)) s) /\ v = cost c (OT O) r /\ o = Some r.
+  Proof.
+    unfold thl_candidates. rewrite in_flat_map. split.
+    - intros [s [Hs I]]. apply in_map_iff in I as [r [E Hr]]. inversion E; subst. eauto 8.
+    - intros [s [r [Hs [Hr [-> ->]]]]]. exists s. split; [exact Hs|]. apply in_map_iff. eauto.
+  Qed.
+
+  Lemma candidates_model : csim RALL (map (cmap rt_out) cands_o) (thl_candidates S c RALL (OT O)).
+  Proof.
+    assert (Same : sameset (map (cmap rt_out) cands_o) (thl_candidates S c RALL (OT O))).
+    { intros [v o]. rewrite In_cands_o, In_cands_model. split.
+      - intros [s [d [Hs [Hd [-> ->]]]]]. exists s, (rtree_of (dfun d) O). split; [exact Hs|]. split; [|auto].
+        apply (decode_model O (root_in_postorder O) s Hs). apply (in_map (fun d => rtree_of (dfun d) O)). exact Hd.
+      - intros [s [r [Hs [Hr [-> ->]]]]]. apply (decode_model O (root_in_postorder O) s Hs), in_map_iff in Hr as [d [<- Hd]].
+        exists s, d. auto. }
+    split; [|split; [|split; [|intros _; exact Same]]].
+    - intros v o I. apply In_cands_o in I as [s [d [_ [_ [_ ->]]]]]. eauto.
+    - intros v o I. apply In_cands_model in I as [s [r [_ [_ [_ ->]]]]]. eauto.
+    - intros v. split; intros [o I]; exists o; now apply Same.
+  Qed.
+
+End ReconcileModel.
+
+(** [reconcile_thl] under ALL: the reconciliations the generated code returns are, up to their order, those of the model *)
+Theorem gen_reconcile_thl_model {lca node_id : Type} (nid_eqb : node_id -> node_id -> bool)
+    (S : stree) (c : costs) (leafsp : node_id -> path) (syn : node_id -> list fam) (missing : node_id -> path)
+    (ord : list (T.MappingInfo path) -> list (T.MappingInfo path)) (O : EV.TreeNode node_id) (lcaobj : lca)
+    (oeqb : T.tout_state path lca node_id -> T.tout_state path lca node_id -> bool) :
+  (forall a b, reflect (a = b) (nid_eqb a b)) -> nn (c_hgt c) -> (forall l, sameset (ord l) l) ->
+  NoDup (map (@EV.TreeNode_id node_id) (T.TreeNode_postorder O)) ->
+  (forall a b, rtree_eqb (rt_out nid_eqb missing O a) (rt_out nid_eqb missing O b) = oeqb a b) ->
+  exists outs,
+    T.gen_reconcile_thl path_eqb nid_eqb (fun _ => anc) (fun _ => sanc) (fun _ => comparable) (fun _ => lcp) (fun _ => dist)
+      (fun _ => sembed S []) oeqb missing ord (EV.mk_rin O lcaobj leafsp (stsocc c)) (prc RALL) = T.Ok outs /\
+    Permutation (map (rt_out nid_eqb missing O) outs) (tags (reconcile_thl S c RALL (otree_of leafsp syn O))).
+Proof.
+  intros nid_eqb_spec Hh ord_same ids_distinct oeqb_rt.
+  destruct (gen_reconcile_thl_eq nid_eqb nid_eqb_spec lcaobj c RALL (sembed S []) leafsp O (postorder_ids_nodup S []) ord
+              (fun l m H => proj1 (ord_same l m) H) oeqb missing syn ids_distinct) as [tb [_ [Sk E]]].
+  eexists. split; [exact E|].
+  pose proof (candidates_model nid_eqb nid_eqb_spec S c leafsp syn missing ord Hh ord_same O ids_distinct
+                (gsem nid_eqb tb) Sk lcaobj) as C.
+  apply (upd_sim rtree_eqb rtree_eqb_spec) in C as [_ [_ Ss]]. specialize (Ss eq_refl).
+  match type of Ss with sameset (tags (update _ _ _ _ (map _ ?cs))) _ =>
+    pose proof (update_emap oeqb rtree_eqb (rt_out nid_eqb missing O) oeqb_rt MIN RALL cs (default_entry MIN)) as E2 end.
+  change (emap (rt_out nid_eqb missing O) (default_entry MIN)) with (@default_entry rtree MIN) in E2.
+  rewrite E2 in Ss. cbn [emap tags] in Ss.
+  apply NoDup_Permutation; [| |exact Ss].
+  - match goal with |- NoDup (map ?f (tags ?e)) => change (NoDup (tags (emap f e))) end.
+    rewrite <- E2. apply (entry_tags_all_nodup rtree_eqb rtree_eqb_spec).
+  - unfold reconcile_thl. apply (entry_tags_all_nodup rtree_eqb rtree_eqb_spec).
+Qed.
+
+(* ------------------------------------------------------------------ *)
+(** * [reconcile_lca] *)
+Section LcaRec.
+  Context {lca node_id : Type} (nid_eqb : node_id -> node_id -> bool).
+  Hypothesis nid_eqb_spec : forall a b, reflect (a = b) (nid_eqb a b).
+  Notation tree := (EV.TreeNode node_id).
+  Notation dict := (list (node_id * path)).
+  Notation oids l := (map (@EV.TreeNode_id node_id) l).
+  Variables (lcaobj : lca) (c : EV.CostValues) (leafsp : node_id -> path) (syn : node_id -> list fam) (O : tree).
+  Notation rin := (EV.mk_rin O lcaobj leafsp c).
+  Notation LOOP := (T.gen_reconcile_lca_for1 nid_eqb (fun (_ : lca) => lcp) rin).
+  Notation OT := (otree_of leafsp syn).
+  Notation get := (T.dict_get nid_eqb).
+
+  Lemma lca_loop (t : tree) : forall rest (rec : dict), NoDup (oids (T.TreeNode_postorder t)) ->
+    (forall n, In n (oids (T.TreeNode_postorder t)) -> get rec n = None) ->
+    exists rec', LOOP (T.TreeNode_postorder t ++ rest) rec = LOOP rest rec' /\
+      (forall u, In u (T.TreeNode_postorder t) -> get rec' (EV.TreeNode_id u) = Some (root (LcaRec.lca_rec (OT u)))) /\
+      (forall n, ~ In n (oids (T.TreeNode_postorder t)) -> get rec' n = get rec n).
+  Proof.
+    induction t as [i|i a IHa b IHb]; intros rest rec ND H0.
+    - cbn [T.TreeNode_postorder app T.gen_reconcile_lca_for1 EV.TreeNode_is_leaf EV.rin_leaf_object_species EV.TreeNode_id].
+      cbv zeta. eexists. split; [reflexivity|]. split.
+      + intros u [<-|[]]. cbn [T.dict_get EV.TreeNode_id otree_of LcaRec.lca_rec root]. destruct (nid_eqb_spec i i); congruence.
+      + intros n Hn. cbn [T.dict_get]. destruct (nid_eqb_spec n i) as [->|N]; [exfalso; apply Hn; now left|reflexivity].
+    - cbn [T.TreeNode_postorder] in *. rewrite !map_app in ND, H0. cbn [map EV.TreeNode_id] in ND, H0.
+      rewrite <- !app_assoc. cbn [app].
+      pose proof (NoDup_app_l _ _ ND) as NDa. pose proof (NoDup_app_r _ _ ND) as NDb'. pose proof (NoDup_app_l _ _ NDb') as NDb.
+      destruct (IHa (T.TreeNode_postorder b ++ EV.TreeNode_node i a b :: rest) rec NDa) as [r1 [E1 [Sa Fa]]].
+      { intros n Hn. apply H0. rewrite in_app_iff. now left. }
+      rewrite E1.
+      assert (Hdisj : forall n, In n (oids (T.TreeNode_postorder a)) -> In n (oids (T.TreeNode_postorder b)) -> False).
+      { intros n H1 H2. eapply (NoDup_app_disj _ _ n ND H1). rewrite in_app_iff. now left. }
+      destruct (IHb (EV.TreeNode_node i a b :: rest) r1 NDb) as [r2 [E2 [Sb Fb]]].
+      { intros n Hn. rewrite Fa; [apply H0; rewrite !in_app_iff; right; now left|]. intros Ha. exact (Hdisj n Ha Hn). }
+      rewrite E2. cbn [T.gen_reconcile_lca_for1 EV.TreeNode_is_leaf EV.TreeNode_id EV.rin_species_lca].
+      assert (Ia : In (EV.TreeNode_id a) (oids (T.TreeNode_postorder a))) by (apply in_map, root_in_postorder).
+      rewrite (Sb b (root_in_postorder b)), Fb by (intros H; exact (Hdisj _ Ia H)). rewrite (Sa a (root_in_postorder a)).
+      eexists. split; [reflexivity|].
+      assert (Ni_a : ~ In i (oids (T.TreeNode_postorder a))).
+      { intros H. eapply (NoDup_app_disj _ _ i ND H). rewrite in_app_iff. right. now left. }
+      assert (Ni_b : ~ In i (oids (T.TreeNode_postorder b))).
+      { intros H. eapply (NoDup_app_disj _ _ i NDb' H). now left. }
+      split.
+      + intros u Hu. rewrite !in_app_iff in Hu. cbn [T.dict_get]. destruct Hu as [Hu|[Hu|[<-|[]]]].
+        * destruct (nid_eqb_spec (EV.TreeNode_id u) i) as [E|_]; [exfalso; apply Ni_a; rewrite <- E; now apply in_map|].
+          rewrite Fb by (intros H; eapply Hdisj; [apply in_map; exact Hu|exact H]). now apply Sa.
+        * destruct (nid_eqb_spec (EV.TreeNode_id u) i) as [E|_]; [exfalso; apply Ni_b; rewrite <- E; now apply in_map|]. now apply Sb.
+        * cbn [EV.TreeNode_id otree_of LcaRec.lca_rec root]. destruct (nid_eqb_spec i i); congruence.
+      + intros n Hn. rewrite !map_app, !in_app_iff in Hn. cbn [In map EV.TreeNode_id] in Hn. cbn [T.dict_get].
+        destruct (nid_eqb_spec n i) as [->|_]; [exfalso; apply Hn; right; right; now left|].
+        rewrite Fb, Fa; [reflexivity| |]; intros H; apply Hn; tauto.
+  Qed.
+
+  Lemma rtree_of_lca f (t : tree) : (forall u, In u (T.TreeNode_postorder t) -> f (EV.TreeNode_id u) = root (LcaRec.lca_rec (OT u))) ->
+    rtree_of f t = LcaRec.lca_rec (OT t).
+  Proof.
+    induction t as [i|i a IHa b IHb]; intros H.
+    - cbn [rtree_of otree_of LcaRec.lca_rec]. pose proof (H _ (or_introl eq_refl)) as E. cbn [EV.TreeNode_id] in E. now rewrite E.
+    - cbn [rtree_of otree_of LcaRec.lca_rec]. cbn [T.TreeNode_postorder] in H.
+      assert (E : f i = root (LcaRec.lca_rec (OT (EV.TreeNode_node i a b)))).
+      { apply (H (EV.TreeNode_node i a b)). rewrite !in_app_iff. right; right. now left. }
+      rewrite E. cbn [otree_of LcaRec.lca_rec root].
+      rewrite IHa, IHb; [reflexivity| |]; intros u Hu; apply H; rewrite !in_app_iff; [right|]; now left.
+  Qed.
+
+  (** the dictionary [reconcile_lca] returns denotes the reconciliation of the model ([Model/LcaRec.v]) *)
+  Theorem gen_reconcile_lca_eq missing : NoDup (oids (T.TreeNode_postorder O)) ->
+    exists d, T.gen_reconcile_lca nid_eqb (fun (_ : lca) => lcp) rin = T.Ok (T.mk_tout rin d) /\
+              rtree_of (T.dict_fun nid_eqb missing d) O = LcaRec.lca_rec (OT O).
+  Proof.
+    intros ND. unfold T.gen_reconcile_lca. cbv zeta. cbn [EV.rin_object_tree].
+    destruct (lca_loop O [] [] ND (fun _ _ => eq_refl)) as [d [E [Sk _]]].
+    rewrite app_nil_r in E. rewrite E. cbn [T.gen_reconcile_lca_for1]. exists d. split; [reflexivity|].
+    apply rtree_of_lca. intros u Hu. unfold T.dict_fun. now rewrite (Sk u Hu).
+  Qed.
+End LcaRec.
+
+(* ------------------------------------------------------------------ *)
+(** * One step against the step of the model *)
+(** the batches of candidates the two step functions compute -- [gen_speciation_eq], [gen_duplication_transfer_eq]: with
+    the species enumerated in level order -- and the batches [spe_batch] / [dt_batch] of [Model/Thl.v] (pre-order): the same
+    candidate values, and under ALL the same candidates, as sets *)
+Corollary spe_step_model S c rp ta tb A B s Sl Sr : sub S s = Some (SNode Sl Sr) ->
+  (forall x, In x (snodes S) -> A x = val (tread ta x) /\ B x = val (tread tb x)) ->
+  csim rp (spe_batch_o c rp A B s (sids (sembed Sl (s ++ [false]))) (sids (sembed Sr (s ++ [true])))) (spe_batch S c rp ta tb s).
+Proof.
+  intros Hsub E. rewrite spe_batch_model.
+  assert (Hsl : sub S (s ++ [false]) = Some Sl) by (rewrite (sub_app S s [false] _ Hsub); cbn; apply sub_nil).
+  assert (Hsr : sub S (s ++ [true]) = Some Sr) by (rewrite (sub_app S s [true] _ Hsub); cbn; apply sub_nil).
+  apply spe_batch_sim; [now apply sameset_under|now apply sameset_under|].
+  intros x [Hx|Hx]; [apply (sameset_under S s false Sl Hsl) in Hx|apply (sameset_under S s true Sr Hsr) in Hx];
+    apply under_In in Hx as [Hx _]; auto.
+Qed.
+
+Corollary dt_step_model S c rp ta tb A B s :
+  (forall x, In x (snodes S) -> A x = val (tread ta x) /\ B x = val (tread tb x)) ->
+  csim rp (dt_batch_o c rp A B s (filter (anc s) (sids (sembed S []))) (filter (sep s) (sids (sembed S [])))) (dt_batch S c rp ta tb s).
+Proof.
+  intros E. rewrite dt_batch_model. apply dt_batch_sim; [apply sameset_filter, sameset_snodes|apply sameset_filter, sameset_snodes|].
+  intros x [Hx|Hx]; apply filter_In in Hx as [Hx _]; apply sameset_snodes in Hx; auto.
+Qed.
+
+(* ------------------------------------------------------------------ *)
+(** * Non-vacuity: the D2 witness of DESIGN section 9 (the instance of [Properties/C01.v]), node identifiers = root paths *)
+Module Example.
+  Fixpoint oembed (O : otree) (p : path) : EV.TreeNode path :=
+    match O with
+    | OLeaf _ _ => EV.TreeNode_leaf p
+    | ONode a b => EV.TreeNode_node p (oembed a (p ++ [false])) (oembed b (p ++ [true]))
+    end.
+  Fixpoint leafsp (O : otree) (p : path) : path :=
+    match O, p with
+    | OLeaf s _, _ => s
+    | ONode a b, false :: p' => leafsp a p'
+    | ONode a b, true :: p' => leafsp b p'
+    | ONode a b, [] => []
+    end.
+  Definition S1 := SNode SLeaf (SNode SLeaf (SNode SLeaf SLeaf)).
+  Definition O1 := ONode (OLeaf [false] []) (ONode (OLeaf [true; true; true] [])
+                   (ONode (OLeaf [true; false] []) (OLeaf [true; true; false] []))).
+  Definition c1 := {| c_spe := 0; c_dup := 1; c_hgt := Fin 1; c_floss := 1; c_sloss := 1 |}.
+  Definition missing1 : path -> path := fun _ => [].
+  Definition oeqb1 (a b : T.tout_state path unit path) : bool :=
+    rtree_eqb (rt_out path_eqb missing1 (oembed O1 []) a) (rt_out path_eqb missing1 (oembed O1 []) b).
+
+  Example hypotheses_satisfiable :
+    nn (c_hgt c1) /\ (forall l : list (T.MappingInfo path), sameset ((fun l => l) l) l) /\
+    NoDup (map (@EV.TreeNode_id path) (T.TreeNode_postorder (oembed O1 []))) /\
+    (forall a b, rtree_eqb (rt_out path_eqb missing1 (oembed O1 []) a) (rt_out path_eqb missing1 (oembed O1 []) b) = oeqb1 a b) /\
+    otree_of (leafsp O1) (fun _ => []) (oembed O1 []) = O1 /\
+    match T.gen_reconcile_thl path_eqb path_eqb (fun _ => anc) (fun _ => sanc) (fun _ => comparable) (fun _ => lcp) (fun _ => dist)
+            (fun _ => sembed S1 []) oeqb1 missing1 (fun l => l) (EV.mk_rin (oembed O1 []) tt (leafsp O1) (stsocc c1)) (prc RALL) with
+    | T.Ok outs => length outs = 4%nat
+    | T.Err _ => False
+    end.
+  Proof.
+    split; [discriminate|]. split; [intros l x; tauto|]. split; [cbn; repeat constructor; cbn; intuition discriminate|].
+    split; [reflexivity|]. split; [reflexivity|]. vm_compute. reflexivity.
+  Qed.
+End Example.
+
+Print Assumptions gen_speciation_eq.
+Print Assumptions gen_duplication_transfer_eq.
+Print Assumptions spe_step_model.
+Print Assumptions dt_step_model.
+Print Assumptions gen_compute_thl_table_eq.
+Print Assumptions tcell_model.
+Print Assumptions tcell_model_tags.
+Print Assumptions gen_decode_eq.
+Print Assumptions gen_reconcile_thl_eq.
+Print Assumptions decode_model.
+Print Assumptions gen_reconcile_thl_model.
+Print Assumptions gen_reconcile_lca_eq.
+Print Assumptions Example.hypotheses_satisfiable.
